@@ -27,7 +27,7 @@ RULE = ('C03-style histories on Cache / FanoutCache in which handle events are i
         'distinct_nontrivial = distinct (container, event kind, position class) cells + golden (directory, key type, '
         'value mode) cells')
 DISTINCT = ('event_cells', 'golden_cells')
-REQUIRED = ('events_iteration_left_open', 'events_second_handle_during_a_call', 'handles_opened_by_spelling_4', 'handles_opened_by_spelling_5', 'calls_judged', 'events_close', 'events_second_handle', 'events_pickle', 'events_thread', 'events_process',
+REQUIRED = ('opens_that_met_the_lock', 'events_iteration_left_open', 'events_second_handle_during_a_call', 'handles_opened_by_spelling_4', 'handles_opened_by_spelling_5', 'calls_judged', 'events_close', 'events_second_handle', 'events_pickle', 'events_thread', 'events_process',
             'events_fork', 'events_reset', 'events_opened_under_exclusive_lock', 'rollback_journal_histories', 'settings_read_back', 'fanout_histories', 'deque_events', 'index_events', 'django_events',
             'golden_items_read', 'golden_rows_compared', 'golden_schema_compared', 'jsondisk_histories')
 ASSUMPTIONS = ('the Disk class is a constructor argument, not a stored setting: non-pickle reopen events pass the same '
@@ -178,6 +178,57 @@ class ReleaseAfterFailures:
             self.failed += 1
             if self.failed == self.k:
                 self.holder.release()
+
+
+def locked_open_sweep(dc, sc, res, shard, nshards, tier):
+    """A handle is opened on an existing directory while the database becomes locked exclusively right before the k-th
+    statement of the opening sequence, for EVERY k, and stays locked until the second failed statement: the open waits and
+    succeeds, and the handle sees the data and the settings (rollback journal and WAL, with and without a tag index)."""
+    import sqlite3
+    for variant, (journal, tag_index) in enumerate([('delete', False), ('wal', False), ('truncate', True), ('wal', True)]):
+        d = sc.new()
+        kw = {} if journal == 'wal' else {'sqlite_journal_mode': journal}
+        first = dc.Cache(d, disk_min_file_size=64, tag_index=tag_index, size_limit=2**27, **kw)
+        first.set('a', 'A' * 100, tag='t')
+        first.set('n', 5)
+        first.close()
+        # dry run: how many statements does opening take?
+        counter = ReleaseAfterFailures(lambda: None, 10**9, take_at=10**9)
+        probe.set_controller(counter)
+        try:
+            dc.Cache(d, timeout=0.02).close()
+        finally:
+            probe.set_controller(None)
+        total = counter.statements
+        for k in range(1, total + 1):
+            if (k + variant) % nshards != shard:
+                continue
+            ctrl = ReleaseAfterFailures(lambda: ExclusiveHolder([d], journal == 'wal'), 2, take_at=k)
+            probe.set_controller(ctrl)
+            h = None
+            try:
+                try:
+                    h = dc.Cache(d, timeout=0.02)
+                    got = None
+                except (sqlite3.OperationalError, dc.Timeout) as exc:
+                    got = ('raise', '%s: %s' % (type(exc).__name__, exc))
+            finally:
+                probe.set_controller(None)
+                ctrl.release()
+            if h is not None:
+                got = ('ok', (h.get('a'), h.get('n'), h.tag_index, h.size_limit))      # (read once the lock is gone)
+                h.close()
+            res.count('evaluations')
+            res.count('opens_with_the_database_locked_from_statement_k')
+            if ctrl.failed:
+                res.count('opens_that_met_the_lock')
+            want = ('ok', ('A' * 100, 5, int(tag_index), 2**27))
+            if got != want and not ctrl.not_obtained:
+                res.violation('opening a handle while the database is locked exclusively from statement %d of %d on (journal %s, '
+                              'tag index %s; released after the 2nd failed statement): %r' % (k, total, journal, tag_index, got),
+                              {'statement': k, 'journal_mode': journal, 'tag_index': tag_index})
+        sc.drop(d)
+    probe.set_controller(None)
 
 
 def cache_history(dc, sc, res, rng, kind, label):
@@ -803,6 +854,7 @@ def run_shard(tier, seed, shard, nshards, res):
     dc = common.use_repo()
     probe.install()
     with common.Scratch() as sc:
+        locked_open_sweep(dc, sc, res, shard, nshards, tier)
         for i in range(4 if tier == 'quick' else 40):
             rng = common.rng_for(seed, 'c18', shard, i)
             kind = 'fanout' if i % 3 == 2 else 'cache'
